@@ -323,12 +323,26 @@ def types(ctx):
         s['rebound'] = True
         return True
 
-    atoms = [('s_cdt', lambda e, s, tr: s['core']),
-             ('s_cdt.Core_Typ in range(1, 6)', lambda e, s, tr: s['inrange']),
-             ('one(%s).S_EDT[17]()' % p, lambda e, s, tr: s['edt'] and not s.get('rebound')),
-             (p, lambda e, s, tr: s['udt'] if s.get('rebound') else True)]
-    effects = [('s_cdt = one(%s).S_CDT[17]()' % p, lambda e, s, tr: True),
-               ('%s = one(%s).S_UDT[17].S_DT[18]()' % (p, p), rebind)]
+    def is_core_nav(x):
+        return pm.match('one(%s).S_CDT[17]()' % p, x) is not None
+
+    def core_truth(e, s, tr):
+        x = e['_X']
+        if is_core_nav(x):
+            return s['core'] and not s.get('rebound')
+        if pm.match('one(%s).S_EDT[17]()' % p, x) is not None:
+            return s['edt'] and not s.get('rebound')
+        if isinstance(x, ast.Name) and x.id == p:
+            return s['udt'] if s.get('rebound') else True
+        return None
+
+    def in_range(e, s, tr):
+        return s['inrange'] if is_core_nav(e['_X']) else None
+    atoms = [('_X.Core_Typ in range(1, 6)', in_range), ('_X.Core_Typ in (1, 2, 3, 4, 5)', in_range), ('1 <= _X.Core_Typ <= 5', in_range),
+             ('1 <= _X.Core_Typ < 6', in_range),
+             ('_X is None', lambda e, s, tr: (None if core_truth(e, s, tr) is None else not core_truth(e, s, tr))),
+             ('_X is not None', core_truth), ('_X', core_truth)]
+    effects = [('%s = one(%s).S_UDT[17].S_DT[18]()' % (p, p), rebind)]
     it = absint.Interp(fn, atoms, effects)
     for core, inrange, edt, udt in itertools.product([False, True], repeat=4):
         if inrange and not core:
@@ -338,6 +352,8 @@ def types(ctx):
         st = dict(core=core, inrange=inrange, edt=edt, udt=udt)
         out, tr = it.run(dict(st))
         got = src(out.value) if out.kind == 'return' and out.value is not None else None
+        if got == 'None':
+            got = None
         if core and inrange:
             want = '%s.Name.upper()' % p
         elif edt:
